@@ -340,7 +340,9 @@ def run_one(spec: dict, run: Any) -> None:
 
 
 def run_shard(shard: dict, run: Any) -> None:
+    import logging
     from bounded import _c10_specs as specs
+    logging.disable(logging.CRITICAL)   # antismash logs refused inputs; nothing may be printed here
     tier = shard["tier"]
     for i, spec in enumerate(specs.all_specs(tier)):
         if i % shard["of"] != shard["index"]:
